@@ -3,7 +3,7 @@
    compared with what the implementation returned.  Everything is compared bit for bit: the code
    paths use only + - * / and comparisons, in the order of the model. *)
 From Coq Require Import List ZArith NArith Bool Floats.
-From SC Require Import Base.FloatUtil Base.Num C12.Model.
+From SC Require Import Base.FloatUtil Base.Num C12.Model C12.ProofsNodes.
 Import ListNotations.
 
 Definition to_nats := map N.to_nat.
@@ -33,13 +33,16 @@ Fixpoint tree_eqb (a b : bbd (T := float)) : bool :=
 (* the dump is a tree in post-order storage, and it satisfies the well-formedness predicate of the
    theorems (C12_filter_exact, C12_lloyd_bookkeeping) — evaluated at binary64, box test with `slack`
    (0 on dyadic lattices, a few ulp of the data scale on continuous data: centre and radius are
-   rounded) *)
+   rounded).  `post_ok` (C12/ProofsNodes.v) is the hypothesis of C12_tree_of_nodes_postorder: the
+   vector is the post-order listing of a tree (children before their parent, no unreachable or
+   shared entry, root last), which is what build_node's push order produces. *)
 Definition corr_wf (slack : float) (data : list (list float)) (nodes : list raw_node) (perm : list N) (root : N)
   : bool :=
   match dump_tree nodes root with
   | None => false
   | Some t =>
       Nat.eqb (tree_size t) (length nodes) && Nat.eqb (S (N.to_nat root)) (length nodes) &&
+      post_ok nodes &&
       wf_bbd FOps slack data (to_nats perm) t
   end.
 
